@@ -204,6 +204,8 @@ def linear_child():
             while time.process_time() - t0 < cfg.get("burn", 10.6):
                 x += sum(i * i for i in range(2000))
             events.append({"req": 0, "sha": None, "text": None, "before": {}, "after": {}, "cpu": time.process_time()})
+            real_stdout.write("EVENT " + json.dumps(events[-1]) + "\n")
+            real_stdout.flush()
             continue
         before = _fingerprints()
         try:
@@ -218,7 +220,9 @@ def linear_child():
         rec["before"] = before
         rec["after"] = _fingerprints()
         events.append(rec)
-    real_stdout.write(json.dumps(events))
+        real_stdout.write("EVENT " + json.dumps(rec) + "\n")   # one line per finished call: a call that never
+        real_stdout.flush()                                     # returns is then known by its position
+    real_stdout.write("END\n")
     real_stdout.flush()
     os._exit(0)
 
@@ -228,6 +232,40 @@ def _spawn(fn, cfg, home, timeout=900):
     e = env.child_env(home, {"C18_CHILD": json.dumps(cfg)})
     return subprocess.run([env.PY, "-B", "-c", "from harness.checks.c18 import %s as f; f()" % fn],
                           env=e, cwd="/", stdout=subprocess.PIPE, stderr=subprocess.PIPE, timeout=timeout)
+
+
+LINEAR_DEADLINE = 420.0   # a history of <= 12 calls takes well under a minute; 10.6 s per Work step
+
+
+def _run_linear(cfg, home, h):
+    """One linear history in its own process group.  A call that does not return within the deadline is
+    recorded as such (sha 'no-return'): the same request returns in a fresh process."""
+    import signal
+
+    e = env.child_env(home, {"C18_CHILD": json.dumps(cfg)})
+    p = subprocess.Popen([env.PY, "-B", "-c", "from harness.checks.c18 import linear_child as f; f()"],
+                         env=e, cwd="/", stdout=subprocess.PIPE, stderr=subprocess.PIPE, start_new_session=True)
+    hung = False
+    try:
+        out, err = p.communicate(timeout=LINEAR_DEADLINE)
+    except subprocess.TimeoutExpired:
+        hung = True
+        try:
+            os.killpg(p.pid, signal.SIGKILL)
+        except OSError:
+            pass
+        out, err = p.communicate()
+    lines = out.decode("utf-8", "replace").splitlines()
+    evs = [json.loads(l[6:]) for l in lines if l.startswith("EVENT ")]
+    if "END" in lines:
+        return evs
+    if not hung:
+        raise RuntimeError("linear child failed: %s" % err.decode("utf-8", "replace")[-1500:])
+    if len(evs) < len(h):
+        r = h[len(evs)]
+        evs.append({"req": r, "sha": "no-return", "exc": "NoReturn", "before": {}, "after": {},
+                    "text": "the call did not return within %d s (process group killed)" % LINEAR_DEADLINE})
+    return evs
 
 
 def fresh_refs(reqs, home):
@@ -379,10 +417,7 @@ def _main(run, tier, seed):
     single = [[r] for r in range(1, len(reqs) + 1)]  # single-call processes: reference fingerprints
 
     def run_lin(h):
-        p = _spawn("linear_child", {"requests": argvs, "refsha": refsha, "history": h}, home)
-        if p.returncode != 0 or not p.stdout:
-            raise RuntimeError("linear child failed: %s" % p.stderr.decode("utf-8", "replace")[-1500:])
-        return json.loads(p.stdout.decode())
+        return _run_linear({"requests": argvs, "refsha": refsha, "history": h}, home, h)
 
     with concurrent.futures.ThreadPoolExecutor(max_workers=12) as ex:
         lres = list(ex.map(run_lin, single + lin))
@@ -439,8 +474,8 @@ def _main(run, tier, seed):
         m = meta[cid]
         names = [rname(reqs, x) for x in m["hist"]]
         rec = m["recs"][at - 1]
-        if rec["sha"] == "exception":
-            sig = "C18:exception:%s:%s" % (names[at - 1], rec.get("exc"))
+        if rec["sha"] in ("exception", "no-return"):
+            sig = "C18:%s:%s:%s" % (rec["sha"], names[at - 1], rec.get("exc"))
         else:
             sig = "C18:history-dependent:%s:after:%s" % (names[at - 1], "+".join(sorted(set(names[:at - 1]))) or "nothing")
         what = "report of %s differs from the fresh-process report after %s in the same interpreter" % (
@@ -501,8 +536,7 @@ def replay(path):
         env.warm_models(["zen1", "zen4", "n1", "tx2"], home)
         refs, _ = fresh_refs(reqs, home)
         refsha = [sha(t) for _, t, _ in refs]
-        p = _spawn("linear_child", {"requests": argvs, "refsha": refsha, "history": c["history"]}, home)
-        evs = json.loads(p.stdout.decode())
+        evs = _run_linear({"requests": argvs, "refsha": refsha, "history": c["history"]}, home, c["history"])
         bad = 0
         for e in evs:
             if e["req"] == 0:
